@@ -245,8 +245,33 @@ pub fn rewrite_strategy() -> impl Strategy<Value = Rewrite> {
         .prop_map(|(extra, comment, cases)| Rewrite { extra, comment, cases })
 }
 
+/// lines with EVERY zone key of the table written as configured - also the ones the zone syntax cannot express
+/// (five letters, mixed case such as ChST): whatever such a word means, its letter case must not matter
+pub fn any_zone_key_line() -> impl Strategy<Value = GenLine> {
+    use crate::lines::Tok;
+    let keys: Vec<String> = vocab().zones.keys().cloned().collect();
+    (prop::sample::select(keys), 0u8..3, prop::sample::select(vec!["15:00", "3:00 pm", "0:30", "23:59:59"])).prop_map(|(z, form, t)| {
+        let mut l = Line::default();
+        l.push(Tok::word(t, Class::Time));
+        match form {
+            0 => l.push(Tok::word(&z, Class::Zone)),
+            1 => {
+                l.push(Tok::word("UTC", Class::Zone));
+                l.push(Tok::word("to", Class::Conn));
+                l.push(Tok::word(&z, Class::Zone));
+            }
+            _ => {
+                l.push(Tok::word(&z, Class::Zone));
+                l.push(Tok::word("to", Class::Conn));
+                l.push(Tok::word("CET", Class::Zone));
+            }
+        }
+        GenLine { prelude: vec![], line: l, lang: "en".into(), tz: None, src: "C11".into() }
+    })
+}
+
 pub fn case_strategy() -> impl Strategy<Value = Case> {
-    (any_line(), rewrite_strategy()).prop_map(|(g, rw)| Case { g, rw })
+    (prop_oneof![12 => any_line().boxed(), 1 => any_zone_key_line().boxed()], rewrite_strategy()).prop_map(|(g, rw)| Case { g, rw })
 }
 
 pub fn empty_strategy() -> impl Strategy<Value = Empty> {
